@@ -74,6 +74,26 @@ def initStatic (count isz : Nat) : Except Err AL :=
   if isz = 0 ∨ count = 0 ∨ count * isz > SIZE_MAX then .error .fault
   else .ok { data := List.replicate (count * isz) none, length := 0, itemSize := isz, dyn := false }
 
+/-- `aws_array_list_init_static_from_initialized`: like `init_static`, over a raw array that already holds
+`count` elements (`raw` is its content) -/
+def initStaticFromInitialized (raw : Region) (count isz : Nat) : Except Err AL :=
+  if isz = 0 ∨ count = 0 ∨ count * isz > SIZE_MAX ∨ raw.length ≠ count * isz then .error .fault
+  else .ok { data := raw, length := count, itemSize := isz, dyn := false }
+
+/-- `aws_array_list_is_valid` on the raw fields (`dataNull`: `data == NULL`) -/
+def isValidRaw (length currentSize itemSize : Nat) (dataNull : Bool) : Bool :=
+  let requiredSizeIsValid := decide (length * itemSize ≤ SIZE_MAX)
+  let currentSizeIsValid := decide (currentSize ≥ (length * itemSize) % 2^64)
+  let dataIsValid := (if currentSize = 0 then dataNull else true) && (if currentSize ≠ 0 then !dataNull else true)
+  let itemSizeIsValid := decide (itemSize ≠ 0)
+  requiredSizeIsValid && currentSizeIsValid && dataIsValid && itemSizeIsValid
+
+def isValid (l : AL) : Bool := isValidRaw l.length l.data.length l.itemSize (l.data.length == 0)
+
+/-- `aws_array_list_get_at_ptr`: the byte offset of the element -/
+def getAtPtr (l : AL) (index : Nat) : Except Err Nat :=
+  if l.length > index then .ok (index * l.itemSize) else .error .invalidIndex
+
 /-- `aws_array_list_calc_necessary_size` -/
 def calcNecessarySize (isz index : Nat) : Except Err Nat :=
   if index + 1 > SIZE_MAX then .error .overflow
